@@ -237,9 +237,9 @@ static std::vector<Obj> buildPool(PoolStats& st, int level) {
   // (2) depth-1 Booleans: A = x#T1, B = y#T4 for all ordered (x,y) over 8 seeds, all three operations
   // level 0 (ASan subset): the first 8 seeds; level 1 (quick): the first 15; level 2 (thorough): all 21.  Names never depend on
   // the level, so a key of a smaller level is a key of every larger one.
-  static const char* BIN[21] = {"Tet",        "Cube123c", "Octa",     "Prism3", "ExtLtwist", "ExtRing",     "RevTorus",
-                                "TwoComp",    "Cube",     "Sphere8",  "Cone4",  "Pyramid",   "RevWedge90",  "HullPts",
-                                "LsSphere",   "ExtSq",    "RevCross", "LsTwo",  "SmoothTet", "ImportProps", "CubeProps"};
+  static const char* BIN[21] = {"Tet",       "Cube123c", "Octa",    "Prism3", "ExtLtwist", "ExtRing",    "RevTorus",
+                                "TwoComp",   "Cube",     "Sphere8", "Cone4",  "Pyramid",   "RevWedge90", "HullPts",
+                                "CubeProps", "LsSphere", "ExtSq",   "RevCross", "LsTwo",   "SmoothTet",  "ImportProps"};
   std::vector<const Seed*> bs;
   for (auto n : std::vector<const char*>(BIN, BIN + (level == 0 ? 8 : level == 1 ? 15 : 21)))
     for (auto& s : S)
@@ -352,13 +352,17 @@ static void caseMeasure(const Obj& o, Ctx& c) {
     std::ostringstream s;
     if (m.NumTri() != o.topo.nTri) s << "NumTri()=" << m.NumTri() << " export " << o.topo.nTri << "; ";
     if (m.NumVert() != o.topo.nVert) s << "NumVert()=" << m.NumVert() << " merged export vertices " << o.topo.nVert << "; ";
-    if (m.NumPropVert() != o.topo.nPropVert) s << "NumPropVert()=" << m.NumPropVert() << " export " << o.topo.nPropVert << "; ";
     if (m.NumEdge() != o.topo.nEdge) s << "NumEdge()=" << m.NumEdge() << " export " << o.topo.nEdge << "; ";
     if (m.NumProp() + 3 != (size_t)o.g.numProp) s << "NumProp()=" << m.NumProp() << " export numProp " << o.g.numProp << "; ";
     if (m.IsEmpty() != (nt == 0)) s << "IsEmpty()=" << m.IsEmpty() << "; ";
     int chi = (int)o.topo.nVert - (int)o.topo.nEdge + (int)o.topo.nTri;
     if (m.Genus() != 1 - chi / 2) s << "Genus()=" << m.Genus() << " export " << 1 - chi / 2 << "; ";
     if (!s.str().empty()) c.viol("counts:" + N, N, s.str());
+    // NumPropVert is not named in the property sentence; it is a count getter with a documented meaning ("the number of property
+    // vertices ... always >= NumVert") whose brute-force definition is the vertex count of the export.  Its own key class.
+    if (m.NumPropVert() != o.topo.nPropVert)
+      c.viol("numpropvert:" + N, N, "NumPropVert()=" + std::to_string(m.NumPropVert()) + " but GetMeshGL64() has " + std::to_string(o.topo.nPropVert) +
+                                        " vertices (NumVert()=" + std::to_string(m.NumVert()) + ", NumProp()=" + std::to_string(m.NumProp()) + ")");
     c.count("scalars", 7);
   }
   // ---- WindingNumber at 64 + 343 lattice points (one batch call, then the first 64 one by one)
